@@ -262,8 +262,9 @@ def run(ctx):
         "the fit carries a first-order frequency term (C04's clock allowance) and starts after the start-up horizon",
         "roll-off class `none` has no figure in soxr.h or the property: it is bounded by the next class (<= 0.01 dB); its flatness in units of "
         "2^(1-bits) is recorded under worst_margins but is no verdict; the internal LSR2Q class is read as `medium`",
-        "plans matching known finding F1 (a dft stage with power-of-two L not dividing block_len) receive no measurement signal: they are set aside, "
-        "counted, and up to 4 of them are probed in a child process (KNOWN-FINDING line when the misbehaviour shows)",
+        "F1 (non-linear phase + power-of-two-L dft stage with L not dividing block_len) is repaired in /repo (279ce1a) and listed as fixed: no configuration is "
+        "set aside, non-linear phase with L = 8 .. 256 post stages is measured like everything else (the set-aside / child-process probe path of "
+        "checks/_signal.py only returns if an F1 entry is listed as known again)",
         "an explicit stopband_begin > 1 admits aliasing / imaging above 2 - stopband_begin: the pass-band the property speaks about is read as "
         "[0, min(passband_end, 2 - stopband_begin)] (for up-sampling _soxr_init enforces passband_end <= 2 - stopband_begin itself); the generator "
         "keeps passband_end below it",
